@@ -2787,6 +2787,13 @@ where
 
             inp.errors.alt = old_alt;
             inp.add_alt_err(&new_alt.pos, new_alt.err);
+        } else if let Some(old_alt) = old_alt {
+            // The parser succeeded: the alt of earlier alternatives is still valid, so reinsert it and apply whatever
+            // alt the parser left behind on top of it (unmapped: it does not belong to a failure of this parser)
+            let new_alt = inp.errors.alt.replace(old_alt);
+            if let Some(new_alt) = new_alt {
+                inp.add_alt_err(&new_alt.pos, new_alt.err);
+            }
         }
 
         res
